@@ -43,7 +43,7 @@ Definition wf_value (v : value) : Prop :=
   | VHash h => h <> [] /\ NoDup (map fst h)
   | _ => True
   end.
-Definition wf_db (d : db) : Prop := forall k e, In (k, e) (d_data d) -> wf_value (e_val e).
+Definition wf_colls (d : db) : Prop := forall k e, In (k, e) (d_data d) -> wf_value (e_val e).
 
 (** the set a key denotes for the set algebra: a missing key is the empty set,
     a key of another type denotes nothing (the command must be refused) *)
